@@ -94,7 +94,8 @@ struct Execution { std::string outcome; std::string violation; };   // filled by
 inline void explore(int bound, const std::vector<int>& root, std::function<Execution(World&)> body, Result& res, long cap = -1, size_t split_depth = 0) {
   std::vector<std::vector<int>> stack{root};
   while (!stack.empty()) {
-    if (cap >= 0 && res.executions >= cap) break;
+    // work sharing: after `cap` executions the unexplored sub-trees are handed back to the caller
+    if (cap >= 0 && res.executions >= cap) { for (auto& p : stack) res.spawned.push_back(p); stack.clear(); break; }
     auto prefix = stack.back(); stack.pop_back();
     World w; w.prefix = prefix;
     Execution ex = body(w);
